@@ -902,6 +902,23 @@ def check_c05(tier, seed, log=print):
                     break
     nt, dis, bad_defs = tie_pass(run, r, modes=('n', 'p', 't'))
     report_tie(run, r, bad_defs, covered=fails)
+    # the property speaks of accepted definitions: a str-mode definition with a pattern (token, regex, skip in every spelling,
+    # subpattern) written to match bytes that are not valid UTF-8 must be refused - accepted, its lexer slices the source off a
+    # char boundary (out of bounds in the default build, a panic in the forbid_unsafe build)
+    import families as F
+    fam = [c for c in F.fam_c04() if not c['meta']['closed']]
+    fcaps = P.run_capture([c['src'] for c in fam])
+    refused = 0
+    for c, cap in zip(fam, fcaps):
+        if cap is None:
+            continue
+        if cap.verdict == 'ACCEPT':
+            run.violation('nonutf8-accepted', dict(definition=c['src'], family=c['family'],
+                                                   what='a str-mode definition whose pattern can match bytes that are not valid UTF-8 is accepted: its spans can leave the char boundaries of the source'),
+                          key='c05acc|' + c['src'])
+        else:
+            refused += 1
+    run.coverage['non_utf8_patterns_refused_in_str_mode'] = dict(cases=len(fam), refused=refused)
     from props_lib import source_read_differential, bump_bounds_probe
     sr = source_read_differential(run, tier, seed, log)
     run.coverage['spans_after_bump'] = bump_bounds_probe(run, tier, log)
